@@ -242,20 +242,25 @@ pub(crate) mod verif_l3_table {
         let keys: [u32; N] = kani::any();
         kani::assume(distinct(&keys));
         let mut t = table(&keys);
-        let mut stamps: [(u32, u32); N] = [(1, 0); N];
+        let mut stamps: [(u32, u32, u32); N] = [(1, 0, 0); N];
         {
             let mut g = t.aircrafts.write().unwrap();
             let mut i = 0;
             while i < N {
                 let day: u32 = kani::any();
                 let sec: u32 = kani::any();
-                kani::assume(day >= 1 && day <= 365 && sec < 86_400);
-                stamps[i] = (day, sec);
-                g.rows[i].1.timestamp = mk_time(day, sec);
+                let ns: u32 = kani::any();
+                kani::assume(day >= 1 && day <= 365 && sec < 86_400 && ns < 1_000_000_000);
+                stamps[i] = (day, sec, ns);
+                g.rows[i].1.timestamp = mk_time_ns(day, sec, ns);
                 i += 1;
             }
         }
-        let now = any_time();
+        let now = {
+            let (day, sec, ns): (u32, u32, u32) = (kani::any(), kani::any(), kani::any());
+            kani::assume(day >= 1 && day <= 365 && sec < 86_400 && ns < 1_000_000_000);
+            mk_time_ns(day, sec, ns)
+        };
         let delete_after: i64 = kani::any();
         kani::assume(delete_after >= 1 && delete_after <= 1_000_000);
         let count: u32 = kani::any();
@@ -269,7 +274,7 @@ pub(crate) mod verif_l3_table {
             let mut k = 0;
             let mut i = 0;
             while i < N {
-                let age = now.signed_duration_since(mk_time(stamps[i].0, stamps[i].1)).num_seconds();
+                let age = now.signed_duration_since(mk_time_ns(stamps[i].0, stamps[i].1, stamps[i].2)).num_seconds();
                 if age < delete_after {
                     assert!(k < g.rows.len() && g.rows[k].0 == keys[i], "an aircraft heard fewer than delete_after seconds ago stays in the table");
                     k += 1;
@@ -282,7 +287,7 @@ pub(crate) mod verif_l3_table {
             assert!(g.rows.len() == N, "no sweep: no row removed");
             let mut i = 0;
             while i < N {
-                assert!(g.rows[i].0 == keys[i] && g.rows[i].1.timestamp == mk_time(stamps[i].0, stamps[i].1), "no sweep: rows untouched");
+                assert!(g.rows[i].0 == keys[i] && g.rows[i].1.timestamp == mk_time_ns(stamps[i].0, stamps[i].1, stamps[i].2), "no sweep: rows untouched");
                 i += 1;
             }
         }
@@ -293,8 +298,16 @@ pub(crate) mod verif_l3_table {
         kani::cover!(true, "reach_end");
     }
 
+    //@ob id=L3.table.cleanup.1 flags=noassert props=C12,C01 tier=quick kind=harness fns=planes.rs:Planes::cleanup bounded=1-row
+    //@region cleanup on a table of 1 row (cheapest instance: decides the age rule itself, incl. sub-second fractions of both instants)
+    #[kani::proof]
+    #[kani::unwind(6)]
+    fn l3_table_cleanup_1() {
+        check_cleanup::<1>();
+    }
+
     //@ob id=L3.table.cleanup.2 flags=noassert props=C12,C01 tier=quick kind=harness fns=planes.rs:Planes::cleanup,counters.rs:increment_cleanup_count,counters.rs:reset_cleanup_count bounded=2-rows
-    //@region cleanup on a table of 2 rows: symbolic last-contact stamps and `now` (any instants of 2026), delete_after in [1, 10^6], sweep counter in 0..=11: sweep iff counter > 10; a sweep keeps exactly the rows with whole-second age < delete_after; counter invariant <= 11 (so a sweep happens within 12 accepted frames)
+    //@region cleanup on a table of 2 rows: symbolic last-contact stamps and `now` (any instants of 2026, nanosecond resolution), delete_after in [1, 10^6], sweep counter in 0..=11: sweep iff counter > 10; a sweep keeps exactly the rows with whole-second age < delete_after; counter invariant <= 11 (so a sweep happens within 12 accepted frames)
     #[kani::proof]
     #[kani::unwind(6)]
     fn l3_table_cleanup_2() {
